@@ -72,7 +72,12 @@ def init_unit(prog, cls_name: str, member: str) -> Optional[T]:
     f = prog.func(f"evo.core.metrics.{cls_name}.__init__")
     it = Interp(prog)
     r = it.run(f, {"pose_relation": tm.enum(prog.cls(PR).qualname, member)})
-    return r.attrs.get((SELF, "unit"))
+    u = r.attrs.get((SELF, "unit"))
+    if u is not None and any(x.op == "exc" for x in u.walk()):
+        # a table lookup guarded against unhashable keys (`except
+        # TypeError`): an enumeration member is hashable, no exception
+        u = tm.select(u, lambda a: False if a.op == "exc" else None)
+    return u
 
 
 def traj_of(t: T) -> Optional[str]:
